@@ -68,7 +68,7 @@ Proof.
   destruct (negb (cs_height s =? height) || (round <? cs_round s) || ((cs_round s =? round) && step_le SPrevote (cs_step s))) eqn:G.
   - injection Eq as <- <-. exact P.
   - unfold step_le in G. bool_to_prop. specialize (Hr ltac:(lia)). assert (round = cs_round s) by lia. subst round.
-    unfold seq in Eq. rewrite do_prevote_eq, Hh in Eq. unfold modify in Eq. injection Eq as <- <-.
+    unfold seq in Eq. rewrite do_prevote_eq in Eq. autorewrite with cs in Eq. rewrite Hh in Eq. unfold modify in Eq. injection Eq as <- <-.
     destruct P as (P0 & P1 & P2 & P3 & P4). unfold Pend. cs.
     split; [exact P0|]. do 3 (split; [intro X; discriminate X|]). exact P4.
 Qed.
